@@ -11,6 +11,7 @@ type GenOpt struct {
 	MaxSampleSize        int    // default 60
 	AllowFinalZeroDur    bool   // the last sample of a track may get duration 0
 	ExtremeCto           bool   // composition offsets may be +-2^31
+	ExtremeDur           bool   // sample durations may be anything up to 2^32-1 (run_index*delta exceeds 32 bits)
 	StsdEntries          int    // > 1: the sample entry is repeated so that description ids 1..StsdEntries are valid
 	VideoStsd, AudioStsd []byte // default: DefaultStsd()
 }
@@ -137,7 +138,15 @@ func GenTracks(t *rapid.T, opt GenOpt) []Track {
 		}
 		// durations
 		var durs []uint32
-		switch rapid.IntRange(0, 2).Draw(t, "durMode") {
+		durMode := rapid.IntRange(0, 2).Draw(t, "durMode")
+		if opt.ExtremeDur && rapid.IntRange(0, 4).Draw(t, "extremeDur") == 0 {
+			durMode = 3
+		}
+		switch durMode {
+		case 3:
+			durs = genRuns(t, n, "dur", func(int) uint32 {
+				return rapid.OneOf(rapid.SampledFrom([]uint32{0x10000000, 0x40000000, 0x7fffffff, 0x80000000, 0xffffffff}), rapid.Uint32Range(1<<24, 0xffffffff)).Draw(t, "bigDur")
+			})
 		case 0:
 			d := genDur(t, "dur")
 			durs = make([]uint32, n)
